@@ -27,7 +27,7 @@ structure DState where
 def dispatch (st : DState) (suite op : String) (inp : Json) : DState × Json :=
   match suite with
   | "frame" => (st, Mps.Drv.Frame.handle op inp)
-  | "twoparty" => let (h, j) := Mps.Drv.TwoParty.handle st.twoparty op inp; ({ st with twoparty := h }, j)
+  | "twoparty" | "twopartyconc" => let (h, j) := Mps.Drv.TwoParty.handle st.twoparty op inp; ({ st with twoparty := h }, j)
   | "sess-keygen" | "sess-sign" | "sess-refresh" | "sess-derive" | "sess-tamper" | "sess-presign-abort" => (st, Mps.Drv.Sessions.handle op inp)
   | "alg" | "algfind" => (st, Mps.Drv.Alg.handle op inp)
   | "pool" => (st, Mps.Drv.Pool.handle op inp)
